@@ -260,9 +260,17 @@ theorem stOf_idle (p : Proc) (h : stOf p = .idle) : p.loc = .idle := by
   obtain ⟨loc, sem, _, _, _, _, _, _, _⟩ := p
   cases loc <;> rcases sem with _ | (_ | _) <;> simp_all [stOf]
 
+/-- an operation a client can issue in state `d`: on an existing search; `Acquire` only once, before anything else;
+    `Yield` / `Release` only while it has a process and no call of it is blocked -/
+def Legal (d : DState) (op : Op) : Prop :=
+  match op with
+  | .acq p => d.st.procs[p]?.map (·.loc) = some .idle
+  | .yield p | .rel p => d.st.procs[p]?.map (·.loc) = some .run
+  | .cancel p | .expire p => p < d.st.procs.length
+
 /-- the result type of one director operation against the ledger -/
 def StepOK (d : DState) (l : Ledger) (op : Op) : Prop :=
-  applySelf l op (dStep d op).2.self = .error "bad-event" ∨
+  (¬ Legal d op ∧ applySelf l op (dStep d op).2.self = .error "bad-event") ∨
   ∃ l1 l2, applySelf l op (dStep d op).2.self = .ok l1 ∧ applyReturns l1 (dStep d op).2.woke = .ok l2 ∧
     Sim (dStep d op).1 l2
 
@@ -287,7 +295,7 @@ theorem expire_ok (d : DState) (l : Ledger) (p : Nat) (hs : Sim d l) (hnp : d.st
       simp only [do1_eq d.st p .expire _ _ hnp hlt hstep, State.applyEff]
   · left
     have : l[p]? = none := List.getElem?_eq_none (by rw [hs.len]; omega)
-    simp [this]
+    exact ⟨fun hleg => hlt hleg, by simp [this]⟩
 
 /-! ### named single-search updates -/
 
@@ -539,13 +547,14 @@ theorem rel_ok (d : DState) (l : Ledger) (p : Nat) (hs : Sim d l) (inv : Inv d.s
         obtain ⟨l2, ha, hs2, _⟩ := notify_sim x _ { d with st := s1 } _ rfl hsim1 hnp1
         exact ⟨_, l2, hself, ha, hs2⟩
     · left
+      refine ⟨fun hleg => by simp only [Legal, List.getElem?_eq_getElem hlt, Option.map_some, Option.some.injEq] at hleg; exact hloc hleg, ?_⟩
       simp only [hloc, ne_eq, not_false_eq_true, ↓reduceIte]
       have hst : ¬ (l[p].st = .holdI ∨ l[p].st = .holdB ∨ l[p].st = .off) := by
         rw [hr.st]; exact fun h => hloc ((stOf_run_iff _ hr.nwI hr.nwB).mp h)
       cases hb : l[p].st <;> simp_all
   · left
     have : l[p]? = none := List.getElem?_eq_none (by rw [hs.len]; omega)
-    simp [applySelf, Op.pid, this]
+    exact ⟨fun hleg => by have hn : d.st.procs[p]? = none := List.getElem?_eq_none (by omega); simp [Legal, hn] at hleg, by simp [applySelf, Op.pid, this]⟩
 
 theorem idle_sem_none (p : Proc) (b : Book) (hr : Rel p b) (hloc : p.loc = .idle) : p.sem = none := by
   cases hsm : p.sem with
@@ -623,10 +632,16 @@ theorem acq_ok (d : DState) (l : Ledger) (p : Nat) (hs : Sim d l) (inv : Inv d.s
             · exact QOK_enqueue d _ .I p _ hlt rfl rfl (by rw [hloc]; decide) rfl hs.qI
             · exact QOK_set_same d _ .B p _ hlt rfl rfl (by simp only [pWaitI, hloc, waitLoc]; decide) hs.qB
     · left
-      simp [applySelf, Op.pid, List.getElem?_eq_getElem hl, hidle]
+      refine ⟨?_, by simp [applySelf, Op.pid, List.getElem?_eq_getElem hl, hidle]⟩
+      intro hleg
+      simp only [Legal, List.getElem?_eq_getElem hlt, Option.map_some, Option.some.injEq] at hleg
+      apply hidle
+      rw [hr.st]
+      have hsem := idle_sem_none _ _ hr hleg
+      simp [stOf, hleg]
   · left
     have : l[p]? = none := List.getElem?_eq_none (by rw [hs.len]; omega)
-    simp [applySelf, Op.pid, this]
+    exact ⟨fun hleg => by have hn : d.st.procs[p]? = none := List.getElem?_eq_none (by omega); simp [Legal, hn] at hleg, by simp [applySelf, Op.pid, this]⟩
 
 /-! ### cancel -/
 
@@ -777,7 +792,7 @@ theorem cancel_ok (d : DState) (l : Ledger) (p : Nat) (hs : Sim d l) (inv : Inv 
         exact ⟨_, _, hself, rfl, hsim1⟩
   · left
     have : l[p]? = none := List.getElem?_eq_none (by rw [hs.len]; omega)
-    simp [applySelf, Op.pid, this]
+    exact ⟨fun hleg => hlt hleg, by simp [applySelf, Op.pid, this]⟩
 
 /-! ### yield -/
 
@@ -1112,13 +1127,14 @@ theorem yield_ok (d : DState) (l : Ledger) (p : Nat) (hs : Sim d l) (inv : Inv d
           · rw [← hb']; exact hall b'
           · rw [hL, List.set_set] at hsim3; exact hsim3
     · left
+      refine ⟨fun hleg => by simp only [Legal, List.getElem?_eq_getElem hlt, Option.map_some, Option.some.injEq] at hleg; exact hloc hleg, ?_⟩
       simp only [hloc, ne_eq, not_false_eq_true, ↓reduceIte, applySelf, Op.pid, List.getElem?_eq_getElem hl]
       have hst : ¬ (l[p].st = .holdI ∨ l[p].st = .holdB ∨ l[p].st = .off) := by
         rw [hr.st]; exact fun h => hloc ((stOf_run_iff _ hr.nwI hr.nwB).mp h)
       cases hb : l[p].st <;> simp_all
   · left
     have : l[p]? = none := List.getElem?_eq_none (by rw [hs.len]; omega)
-    simp [applySelf, Op.pid, this]
+    exact ⟨fun hleg => by have hn : d.st.procs[p]? = none := List.getElem?_eq_none (by omega); simp [Legal, hn] at hleg, by simp [applySelf, Op.pid, this]⟩
 
 /-! ### all operations, all scripts -/
 
@@ -1153,13 +1169,39 @@ theorem checkSteps_model (s0 : State) (h0 : Inv s0) : ∀ (ops : List Op) (d : D
     have inv1 := reach_inv h0 hreach1
     obtain ⟨c1, c2⟩ := reach_caps hreach1
     simp only [dRun, checkSteps]
-    rcases dStep_ok d l op hs inv with hbad | ⟨l1, l2, h1, h2, hs2⟩
+    rcases dStep_ok d l op hs inv with ⟨_, hbad⟩ | ⟨l1, l2, h1, h2, hs2⟩
     · right; simp only [hbad]
     · simp only [h1, h2]
       have hobs := checkObs_ok (out := (dStep d op).2) (dStep d op).1 l2 hs2 inv1
       rw [c1, c2] at hobs
       simp only [hobs]
       exact ih (dStep d op).1 l2 hreach1 hs2
+
+/-- every operation of the script is one a client can issue at the moment it is issued -/
+def LegalRun : DState → List Op → Prop
+  | _, [] => True
+  | d, op :: rest => Legal d op ∧ LegalRun (dStep d op).1 rest
+
+theorem checkSteps_model_legal (s0 : State) (h0 : Inv s0) : ∀ (ops : List Op) (d : DState) (l : Ledger),
+    Reach false s0 d.st → Sim d l → LegalRun d ops →
+    checkSteps s0.capI s0.capB l ops (dRun d ops).2 = .ok () := by
+  intro ops
+  induction ops with
+  | nil => intro d l _ _ _; rfl
+  | cons op rest ih =>
+    intro d l hreach hs hleg
+    have inv := reach_inv h0 hreach
+    have hreach1 := dStep_reach d op hreach
+    have inv1 := reach_inv h0 hreach1
+    obtain ⟨c1, c2⟩ := reach_caps hreach1
+    simp only [dRun, checkSteps]
+    rcases dStep_ok d l op hs inv with ⟨hnl, _⟩ | ⟨l1, l2, h1, h2, hs2⟩
+    · exact absurd hleg.1 hnl
+    · simp only [h1, h2]
+      have hobs := checkObs_ok (out := (dStep d op).2) (dStep d op).1 l2 hs2 inv1
+      rw [c1, c2] at hobs
+      simp only [hobs]
+      exact ih (dStep d op).1 l2 hreach1 hs2 hleg.2
 
 theorem countP_fresh_loc (x : Loc) (hx : x ≠ .idle) (dones : List Bool) :
     (dones.map Proc.fresh).countP (fun p => p.loc == x) = 0 := by
@@ -1203,5 +1245,15 @@ theorem checkRun_model (capacity batchdiv : Nat) (dones : List Bool) (ops : List
   rcases h with h | h
   · left; simp only [h]
   · right; simp only [h]
+
+/-- for scripts a client can issue (`LegalRun`) the statement holds outright -/
+theorem checkRun_model_legal (capacity batchdiv : Nat) (dones : List Bool) (ops : List Op)
+    (hleg : LegalRun (dInit capacity batchdiv dones) ops) :
+    checkRun capacity (batchCap capacity batchdiv) dones ops (dRun (dInit capacity batchdiv dones) ops).2 = none := by
+  have h := checkSteps_model_legal (init capacity (batchCap capacity batchdiv) dones) (init_inv _ _ _) ops
+    (dInit capacity batchdiv dones) _ Reach.refl (sim_init capacity batchdiv dones) hleg
+  unfold checkRun
+  simp only [init] at h
+  simp only [h]
 
 end ZoektModel.C20
